@@ -972,4 +972,6 @@ func runC10(c *Ctx) {
 	// (D) dynamic membership: the numbering arrives through the API (PUT /membership/info of the real api.NewAPI) and is
 	// announced on the bus exactly when it differs from the one in effect
 	runC16API(c)
+	// (E) kubernetesStatefulSet membership
+	runC10StatefulSet(c)
 }
